@@ -104,7 +104,7 @@ class Run:
                 t = time.time()
                 try:
                     r['fn'](ctx)
-                    if ctx.obligations < r['floor']:
+                    if ctx.obligations < r['floor'] and not ctx.findings:
                         ctx.bad(f"FLOOR", f"rule matched {ctx.obligations} obligations, below the confirmed floor "
                                 f"{r['floor']} (anchors moved or rule went vacuous) - cannot decide, failing closed")
                 except AnchorMissing as e:
